@@ -437,4 +437,27 @@ func init() {
 		Outside: "gzip / snappy / zstd compressors and their pooled state under concurrency: compression kernels cannot be encoded (declined; the snappy layer inside the snapshot file is an identity pipe here); fields longer than 2 bytes; varint lengths 3..9; mixed presence patterns inside nested messages; the backup tar writer",
 		Assumptions: []string{"the real generated vtproto code and the registered Codec are executed; sync.Pool is a LIFO list (reuse always happens)"},
 	}
+	props["C04"] = &Property{
+		Title: "crash recovery exposes exactly a prefix, atomically, once",
+		Instances: func(tier string) []*Instance {
+			fsm := "storage/table/fsm"
+			return []*Instance{
+				{Pkg: fsm, Func: "VH_C04_open", Args: []int64{0}, Unwind: 64},
+				{Pkg: fsm, Func: "VH_C04_open", Args: []int64{1}, Unwind: 64},
+				{Pkg: fsm, Func: "VH_C04_reopen", Unwind: 64},
+				{Pkg: fsm, Func: "VH_C04_vacuity", Expect: "violated"},
+			}
+		},
+		Covers: map[string][]string{"VH_C04_open": {"end", "crash-during"}, "VH_C04_reopen": {"end", "crash-during"}},
+		Bounds: map[string]string{
+			"quick":    "first open (host directory durable beforehand / created by this open) + one applied batch + sync, and reopen of a cleanly closed table (with or without a left-over current.updating) + second batch + sync; crash at each of the first 30 regatta-level file-system operations (the sequences are shorter) or after everything; one crash per run (repeated crashes follow by induction: the post-crash state is again 'table closed, everything volatile lost')",
+			"thorough": "same",
+		},
+		Outside: "Pebble's own atomicity (flush + manifest switch; a crash inside a Pebble operation): trusted, the model makes committed content durable exactly at Flush and only if the DB directory entry is durable; snapshot recovery / directory switch-over during RecoverFromSnapshot (the SST ingest / checkpoint payload cannot be encoded); disk errors, torn writes; re-applying entries after the reported index (C03's determinism)",
+		Assumptions: []string{
+			"M6: vfs.NewStrictMem semantics (file data durable up to its last Sync, directory entries up to the directory's last Sync); native replay runs the same harness on the real StrictMem with real Pebble",
+			"M1 with durability = last Flush (WAL disabled, as rp.DefaultOptions sets and C12 asserts)",
+			"crash points are regatta's own file-system calls",
+		},
+	}
 }
